@@ -54,7 +54,7 @@ func (w *World) Prelude() string {
 	case FloatIEEE:
 		sb.WriteString("(define-sort Float () (_ FloatingPoint 11 53))\n")
 	case FloatBits:
-		sb.WriteString("(define-sort Float () (_ BitVec 64))\n")
+		sb.WriteString("(define-sort Float () Int)\n") // the uint64 bit pattern as an integer in [0, 2^64)
 	case FloatAbstract:
 		sb.WriteString("(declare-sort Float 0)\n")
 	}
@@ -300,7 +300,7 @@ func (w *World) FConst(f float64) *Term {
 	case FloatIEEE:
 		t = Leaf(fmt.Sprintf("(fp #b%01b #b%011b #b%052b)", bits>>63, (bits>>52)&0x7ff, bits&((1<<52)-1)), "Float")
 	case FloatBits:
-		t = Leaf(fmt.Sprintf("#x%016x", bits), "Float")
+		t = Leaf(new(bigInt).SetUint64(bits).String(), "Float")
 	case FloatAbstract:
 		name := fmt.Sprintf("fc_%016x", bits)
 		w.Declare(name, fmt.Sprintf("(declare-const %s Float)", name))
@@ -370,7 +370,9 @@ func (w *World) FNeg(a *Term) *Term {
 		w.needAbstractOps()
 		return App("fneg", "Float", a)
 	}
-	return App("bvxor", "Float", a, Leaf("#x8000000000000000", "Float"))
+	// sign flip on the bit pattern
+	half := Leaf("9223372036854775808", "Float")
+	return App("ite", "Float", App(">=", "Bool", a, half), App("-", "Float", a, half), App("+", "Float", a, half))
 }
 func (w *World) FCmp(op string, a, b *Term) *Term {
 	switch w.FM {
@@ -406,15 +408,17 @@ func (w *World) FCmp(op string, a, b *Term) *Term {
 			return App("fle", "Bool", b, a)
 		}
 	case FloatBits:
-		// IEEE equality written on the bit pattern: equal bits and not NaN, or both zeros.
+		// IEEE equality written on the bit pattern (an integer): equal bits and not NaN, or both zeros.
+		p52 := Leaf("4503599627370496", "Int")
+		p63 := Leaf("9223372036854775808", "Int")
 		isNaN := func(x *Term) *Term {
-			return And(Eq(App("(_ extract 62 52)", "(_ BitVec 11)", x), Leaf("#b11111111111", "(_ BitVec 11)")),
-				Not(Eq(App("(_ extract 51 0)", "(_ BitVec 52)", x), Leaf("#x0000000000000", "(_ BitVec 52)"))))
+			return And(App("=", "Bool", App("mod", "Int", App("div", "Int", x, p52), Leaf("2048", "Int")), Leaf("2047", "Int")),
+				Not(App("=", "Bool", App("mod", "Int", x, p52), Leaf("0", "Int"))))
 		}
 		isZero := func(x *Term) *Term {
-			return Eq(App("(_ extract 62 0)", "(_ BitVec 63)", x), Leaf("(_ bv0 63)", "(_ BitVec 63)"))
+			return App("=", "Bool", App("mod", "Int", x, p63), Leaf("0", "Int"))
 		}
-		eq := Or(And(Eq(a, b), Not(isNaN(a))), And(isZero(a), isZero(b)))
+		eq := Or(And(App("=", "Bool", a, b), Not(isNaN(a))), And(isZero(a), isZero(b)))
 		switch op {
 		case "==":
 			return eq
@@ -526,4 +530,16 @@ func (w *World) At(off, i *Term) *Term {
 		w.decls = append(w.decls, "(assert (forall ((o Int) (i Int)) (! (= (at o i) (+ o i)) :pattern ((at o i)))))")
 	}
 	return App("at", "Int", off, i)
+}
+
+// ZeroRow is the content of a freshly allocated backing array: every element is the zero value.
+func (w *World) ZeroRow(elem types.Type) *Term {
+	es := w.SortOf(elem)
+	name := "zrow_" + sanitize(es)
+	sort := ArraySort("Int", es)
+	if !w.declared[name] {
+		w.Declare(name, fmt.Sprintf("(declare-const %s %s)", name, sort))
+		w.decls = append(w.decls, fmt.Sprintf("(assert (forall ((k Int)) (! (= (select %s k) %s) :pattern ((select %s k)))))", name, w.Zero(elem), name))
+	}
+	return Leaf(name, sort)
 }
